@@ -98,6 +98,14 @@ Theorem pointer_without_segment_error_and_continue : forall g pre c rest,
              (fst (run current g (snd (fst r)) rest)) rest.
 Proof. exact never_advertised_refused. Qed.
 
+(* Dynamic stream methods (DynamicStreamWithHeader: producer or exchange decided per call by the
+   init handler) are served on a pipe exactly like the static ones, refusals and draining
+   included: every theorem here holds for calls with [c_dyn = true] (they quantify over all
+   calls), and a call's answer, the next state and the plain answer do not depend on it. *)
+Theorem dynamic_method_served_like_static : forall v g st c b,
+  serve_call v g st (set_dyn b c) = serve_call v g st c /\ plain_answer (set_dyn b c) = plain_answer c.
+Proof. intros. split; [apply dyn_same|apply dyn_same_plain]. Qed.
+
 (* The same whenever the connection holds no segment for this request (detached by the
    advertisement of another name, for instance), from any live state. *)
 Theorem pointer_request_unattached_error_and_continue : forall g st c rest,
